@@ -161,9 +161,9 @@ def plan_for(prop, tier, seed):
                     if q and bi > 0 and pi % 2:
                         continue
                     P.add(Entry("bw_ord%d_%d_fi" % (bi, pi), "bytewise", "first", p), *fams)
-                    if withE and (not q or bi == 0):
+                    if withE and (bi == 0 or (not q and bi == 1)):
                         P.add(Entry("bw_ord%d_%d_fi_e" % (bi, pi), "bytewise", "first", p),
-                              "E:m=lm,L=%d" % (2 if q else 4))
+                              "E:m=lm,L=%d" % (2 if q else 3))
             # char-wise orders: Greek letters in the quick tier (1.2 k-entry mapper table), CJK in the thorough one
             for pi, p in enumerate(perms3(["αβ", "αβγ", "βγ"] if q else ["東京", "東京都", "京都"])):
                 if q and pi % 2:
